@@ -2,6 +2,7 @@ package main
 
 import (
 	"encoding/json"
+	"errors"
 	"fmt"
 	"os"
 	"sort"
@@ -12,6 +13,7 @@ import (
 	"verif/h/crashx"
 	"verif/h/dmgx"
 	"verif/h/eng"
+	"verif/h/schedx"
 	"verif/h/seqx"
 )
 
@@ -64,6 +66,9 @@ func runCheck(prop, tier string) int {
 	}
 	if prop == "C05" || prop == "C06" {
 		return runCrash(prop, tier)
+	}
+	if prop == "C08" || prop == "C18" {
+		return runSched(prop, tier)
 	}
 	fmt.Fprintln(os.Stderr, "no check for", prop)
 	return 2
@@ -142,6 +147,9 @@ func runWorker(engine string) {
 	case "crashx":
 		eng.ServeWorker(crashx.Worker)
 		crashx.CleanupWorker()
+	case "schedx":
+		eng.ServeWorker(schedx.Worker)
+		schedx.CleanupWorker()
 	case "dmgx":
 		eng.ServeWorker(dmgx.Worker)
 		dmgx.CleanupWorker()
@@ -152,8 +160,123 @@ func runWorker(engine string) {
 }
 
 func runReplay(path string) int {
-	fmt.Fprintln(os.Stderr, "replay not built yet:", path)
-	return 2
+	b, err := os.ReadFile(path)
+	if err != nil {
+		fmt.Fprintln(os.Stderr, err)
+		return 2
+	}
+	var art struct {
+		Property string          `json:"property"`
+		Engine   string          `json:"engine"`
+		Message  string          `json:"message"`
+		Replay   json.RawMessage `json:"replay"`
+	}
+	if err := json.Unmarshal(b, &art); err != nil {
+		fmt.Fprintln(os.Stderr, err)
+		return 2
+	}
+	fmt.Printf("property %s, engine %s\nrecorded: %s\n", art.Property, art.Engine, art.Message)
+	switch art.Engine {
+	case "schedx":
+		return replaySched(art.Property, art.Replay)
+	case "seqx", "crashx":
+		return replaySeq(art.Property, art.Replay)
+	default:
+		fmt.Println("replay of this engine's artefacts: re-run the check; the artefact names the exact case (damage / codec case)")
+		return 0
+	}
+}
+
+func replaySched(prop string, raw json.RawMessage) int {
+	var rep struct {
+		Kind    string         `json:"kind"`
+		Program schedx.Program `json:"program"`
+		Choices []int          `json:"choices"`
+	}
+	if err := json.Unmarshal(raw, &rep); err != nil {
+		fmt.Fprintln(os.Stderr, err)
+		return 2
+	}
+	fmt.Printf("program %s\nchoices %v\n", rep.Program, rep.Choices)
+	judge := schedx.Linearizable
+	if prop == "C18" {
+		judge = schedx.JudgeBlocking
+	}
+	rc := 0
+	for i := 0; i < 5; i++ {
+		x, err := schedx.Exec(rep.Program, rep.Choices, false)
+		if err != nil {
+			fmt.Fprintln(os.Stderr, err)
+			return 2
+		}
+		if i == 0 {
+			fmt.Print(x.Trace(rep.Program))
+		}
+		msg := ""
+		if x.Deadlock != "" {
+			msg = "deadlock: " + x.Deadlock
+		} else {
+			msg = judge(rep.Program, x)
+		}
+		fmt.Printf("run %d: %s\n", i+1, map[bool]string{true: "property holds on this schedule", false: "VIOLATION reproduced: " + msg}[msg == ""])
+		if msg != "" {
+			rc = 1
+		}
+	}
+	schedx.CleanupWorker()
+	return rc
+}
+
+func replaySeq(prop string, raw json.RawMessage) int {
+	var rep struct {
+		Family   string   `json:"family"`
+		CfgIndex int      `json:"cfg_index"`
+		History  []string `json:"history"`
+	}
+	if err := json.Unmarshal(raw, &rep); err != nil {
+		fmt.Fprintln(os.Stderr, err)
+		return 2
+	}
+	if len(rep.History) == 0 {
+		fmt.Println("nothing to replay")
+		return 0
+	}
+	eng := "seqx"
+	if prop == "C05" || prop == "C06" {
+		eng = "crashx"
+		os.Setenv("VERIF_CRASH_PROP", prop)
+	}
+	task := seqx.Task{Fam: rep.Family, Cfg: rep.CfgIndex, Hist: rep.History[:len(rep.History)-1], Tier: "quick"}
+	tb, _ := json.Marshal(task)
+	var res seqx.Result
+	if eng == "seqx" {
+		res = seqx.Worker(tb).(seqx.Result)
+		seqx.CleanupWorker()
+	} else {
+		res = crashx.Worker(tb).(seqx.Result)
+		crashx.CleanupWorker()
+	}
+	if res.HarnessErr != "" {
+		fmt.Fprintln(os.Stderr, res.HarnessErr)
+		return 2
+	}
+	rc := 0
+	last := rep.History[len(rep.History)-1]
+	for _, s := range res.Succs {
+		if s.Letter != last {
+			continue
+		}
+		for _, d := range s.Dis {
+			if d.Has(prop) {
+				fmt.Printf("VIOLATION reproduced: %s after %v\n", d.Msg, rep.History)
+				rc = 1
+			}
+		}
+	}
+	if rc == 0 {
+		fmt.Printf("property %s holds after %v\n", prop, rep.History)
+	}
+	return rc
 }
 
 func runDmg(prop, tier string) int {
@@ -298,4 +421,241 @@ func runCrash(prop, tier string) int {
 	}
 	r.Assumptions = []string{"fault model as fixed by the property: process crash keeps the page cache; power loss cuts each file independently to a length between its last fsynced length and its current length; directory operations are durable in program order; 8-byte file headers are atomic", "trusted: the os shim's journal (validated against the real directory after every transition), tmpfs"}
 	return r.Finish()
+}
+
+func envInt(name string, def int) int {
+	if s := os.Getenv(name); s != "" {
+		var n int
+		if _, err := fmt.Sscan(s, &n); err == nil {
+			return n
+		}
+	}
+	return def
+}
+
+func runSched(prop, tier string) int {
+	r := eng.NewRun(prop, tier, "model_checking", "schedx")
+	var progs []schedx.Program
+	judge := "lin"
+	if prop == "C08" {
+		progs = schedx.Programs08(tier)
+	} else {
+		progs = schedx.Programs18(tier)
+		judge = "block"
+	}
+	if f := os.Getenv("VERIF_PROG"); f != "" {
+		var sel []schedx.Program
+		for _, p := range progs {
+			if strings.Contains(p.String(), f) {
+				sel = append(sel, p)
+			}
+		}
+		progs = sel
+	}
+	if len(progs) == 0 {
+		r.HarnessError("no programs to explore")
+		return r.Finish()
+	}
+	pairBound, triBound, raceBound := 3, 2, 1
+	budget := 150000
+	if tier == "thorough" {
+		pairBound, triBound, raceBound = 5, 3, 2
+		budget = 2000000
+	}
+	pairBound = envInt("VERIF_BOUND", pairBound)
+	triBound = envInt("VERIF_BOUND3", triBound)
+	mk := func(p schedx.Program, bound, free int, announce string) schedx.Task {
+		return schedx.Task{Prog: p, Bound: bound, Budget: budget, Free: free, Announce: announce, Judge: judge}
+	}
+	total := struct{ execs, pruned, states, ops, outcomes, noncolliding, exhausted int }{}
+	boundHist := map[string]int{}
+	deadline := time.Now().Add(tierBudget(tier))
+	handle := func(phase string, t schedx.Task, raw json.RawMessage, err error, announce string) {
+		if err != nil {
+			var de *eng.DiedError
+			switch {
+			case err == eng.ErrHung:
+				r.Report(eng.Violation{Sig: phase + ": hang", Msg: fmt.Sprintf("exploration of %s did not finish within the guard (a call never returned)", t.Prog), Replay: map[string]any{"program": t.Prog}})
+			case errors.As(err, &de) && strings.Contains(de.Stderr, "DATA RACE"):
+				ann, _ := os.ReadFile(announce)
+				rep := raceSummary(de.Stderr)
+				r.Report(eng.Violation{Sig: "data race: " + rep.sig, Msg: fmt.Sprintf("data race in %s under the controlled schedule: %s", t.Prog, rep.short),
+					Replay: map[string]any{"engine": "schedx", "kind": "race", "program": t.Prog, "announce": string(ann), "race_report": rep.full}})
+			case errors.As(err, &de):
+				tail := de.Stderr
+				if len(tail) > 2000 {
+					tail = tail[len(tail)-2000:]
+				}
+				r.HarnessError(fmt.Sprintf("%s: worker died on %s: exit %d: %s", phase, t.Prog, de.Exit, tail))
+			default:
+				r.HarnessError(fmt.Sprintf("%s: %s: %v", phase, t.Prog, err))
+			}
+			return
+		}
+		var res schedx.TaskResult
+		if err := json.Unmarshal(raw, &res); err != nil {
+			r.HarnessError(err.Error())
+			return
+		}
+		if res.HarnessErr != "" {
+			r.HarnessError(fmt.Sprintf("%s: %s: %s", phase, t.Prog, res.HarnessErr))
+			return
+		}
+		total.execs += res.Executions
+		total.pruned += res.Pruned
+		total.states += res.States
+		total.ops += res.Ops
+		if phase == "explore" {
+			total.outcomes += res.Outcomes
+			if res.Outcomes <= 1 {
+				total.noncolliding++
+			}
+			if res.Exhausted {
+				total.exhausted++
+			} else {
+				r.Cap(fmt.Sprintf("%s: execution budget hit after %d executions (completed preemption bound %d)", t.Prog, res.Executions, res.BoundDone))
+			}
+			boundHist[fmt.Sprintf("threads=%d bound_completed=%d", len(t.Prog.Threads), res.BoundDone)]++
+			if len(r.Samples) < 6 && res.SampleChoice != nil {
+				r.Samples = append(r.Samples, map[string]any{"program": t.Prog.String(), "schedule_choices": res.SampleChoice, "executions": res.Executions, "pruned": res.Pruned, "distinct_outcomes": res.Outcomes, "max_scheduling_points": res.MaxPoints})
+			}
+		}
+		for _, f := range res.Findings {
+			if f.Kind == "nondeterminism" {
+				r.HarnessError(fmt.Sprintf("%s: %s: %s (choices %v)", phase, t.Prog, f.Msg, f.Choices))
+				continue
+			}
+			r.Report(eng.Violation{Sig: f.Kind + ": " + seqx.Signature(progShape(t.Prog)+" "+firstWords(f.Msg, 12)), Msg: fmt.Sprintf("%s in %s with %d preemptions", f.Msg, t.Prog, f.Preempt),
+				Replay: map[string]any{"engine": "schedx", "kind": f.Kind, "program": t.Prog, "choices": f.Choices, "preemptions": f.Preempt, "expected_vs_observed": f.Msg}})
+		}
+	}
+	// phase 1: exploration without the race detector
+	pool := eng.NewPool("schedx")
+	pool.Env = []string{"GOMAXPROCS=1"}
+	pool.Guard = 30 * time.Minute
+	pool.Start()
+	var tasks []schedx.Task
+	for _, p := range progs {
+		b := pairBound
+		if p.IsTriple() {
+			b = triBound
+		}
+		tasks = append(tasks, mk(p, b, 2, ""))
+	}
+	_ = deadline
+	eng.Map(pool, tasks, func(i int, raw json.RawMessage, err error) { handle("explore", tasks[i], raw, err, "") })
+	pool.Close()
+	// phase 2: the same explorer built with -race: data-race freedom on every explored schedule
+	raceBin := os.Getenv("VERIF_VX_RACE")
+	raceExecs := 0
+	if _, err := os.Stat(raceBin); raceBin != "" && err == nil {
+		rp := eng.NewPool("schedx")
+		rp.Bin = raceBin
+		rp.Capture = true
+		rp.Env = []string{"GOMAXPROCS=1", "GORACE=halt_on_error=1 exitcode=66"}
+		rp.Guard = 30 * time.Minute
+		rp.Start()
+		dir, _ := os.MkdirTemp(scratch(), "verif.announce.")
+		defer os.RemoveAll(dir)
+		var rtasks []schedx.Task
+		for i, p := range progs {
+			if p.IsTriple() && tier != "thorough" {
+				continue
+			}
+			t := mk(p, raceBound, 0, fmt.Sprintf("%s/a%d", dir, i))
+			t.Budget = budget / 10
+			rtasks = append(rtasks, t)
+		}
+		before := total.execs
+		eng.Map(rp, rtasks, func(i int, raw json.RawMessage, err error) { handle("race", rtasks[i], raw, err, rtasks[i].Announce) })
+		rp.Close()
+		raceExecs = total.execs - before
+		r.Cov["race_detector_programs"] = len(rtasks)
+	} else {
+		r.Cap("race build not available: data-race freedom not checked in this run")
+	}
+	r.Cov["programs"] = len(progs)
+	r.Cov["states"] = total.states
+	r.Cov["transitions"] = total.ops
+	r.Cov["traces_validated_against_impl"] = total.execs
+	r.Cov["evaluations"] = total.execs
+	r.Cov["executions_under_race_detector"] = raceExecs
+	r.Cov["schedules_pruned_by_happens_before"] = total.pruned
+	r.Cov["distinct_nontrivial"] = total.outcomes
+	r.Cov["programs_with_one_outcome_only"] = total.noncolliding
+	r.Cov["programs_exhausted_within_bound"] = total.exhausted
+	r.Cov["bounds_completed"] = boundHist
+	r.Cov["preemption_bounds"] = map[string]int{"pairs": pairBound, "triples": triBound, "race_build": raceBound}
+	r.Cov["rule"] = "every program (initial state x calls per thread) is executed on the real code under the cooperative scheduler for every schedule up to the preemption bound (iterated 0..bound), pruning schedule prefixes whose happens-before identity (per-thread event hashes incl. call/return order) was already explored at equal or smaller cost; states = distinct (happens-before prefix, next thread) pairs, transitions = scheduled operations, distinct_nontrivial = distinct observed outcomes (results + real-time order + final log) summed over programs; every execution is judged by brute-force linearizability against the list model with the final sequential observation as a constraint; the same exploration is repeated on a -race build (hand-off invisible to the detector)"
+	r.Assumptions = []string{"2-3 threads, 1-2 calls each; preemption bound as reported", "file-system calls, lock operations and atomics are atomic steps; Go memory model below data-race freedom not explored", "trusted: the shims (real primitives underneath), the scheduler, the race detector"}
+	return r.Finish()
+}
+
+type raceRep struct{ sig, short, full string }
+
+// raceSummary extracts the two access sites of the first race report.
+func raceSummary(stderr string) raceRep {
+	i := strings.Index(stderr, "WARNING: DATA RACE")
+	if i < 0 {
+		return raceRep{sig: "unknown", short: "unknown", full: stderr}
+	}
+	rep := stderr[i:]
+	if j := strings.Index(rep, "=================="); j > 0 {
+		rep = rep[:j]
+	}
+	var sites []string
+	lines := strings.Split(rep, "\n")
+	for k, l := range lines {
+		lt := strings.TrimSpace(l)
+		if (strings.HasPrefix(lt, "Read at") || strings.HasPrefix(lt, "Write at") || strings.HasPrefix(lt, "Previous read at") || strings.HasPrefix(lt, "Previous write at")) && k+2 < len(lines) {
+			fn := strings.TrimSpace(lines[k+1])
+			loc := strings.TrimSpace(lines[k+2])
+			if sp := strings.Index(loc, " "); sp > 0 {
+				loc = loc[:sp]
+			}
+			if sl := strings.LastIndex(loc, "/"); sl >= 0 {
+				loc = loc[sl+1:]
+			}
+			if p := strings.Index(fn, "("); p > 0 {
+				fn = fn[:p]
+			}
+			if sl := strings.LastIndex(fn, "/"); sl >= 0 {
+				fn = fn[sl+1:]
+			}
+			kind := "read"
+			if strings.Contains(lt, "rite") {
+				kind = "write"
+			}
+			sites = append(sites, fmt.Sprintf("%s in %s", kind, fn))
+			_ = loc
+		}
+	}
+	sort.Strings(sites)
+	sig := strings.Join(sites, " vs ")
+	if len(rep) > 3000 {
+		rep = rep[:3000]
+	}
+	return raceRep{sig: sig, short: sig, full: rep}
+}
+
+func progShape(p schedx.Program) string {
+	var ts []string
+	for _, t := range p.Threads {
+		var cs []string
+		for _, c := range t {
+			op, _, _ := strings.Cut(c, ":")
+			cs = append(cs, op)
+		}
+		ts = append(ts, strings.Join(cs, ";"))
+	}
+	sort.Strings(ts)
+	return strings.Join(ts, " || ")
+}
+
+func firstWords(s string, n int) string {
+	f := strings.Fields(s)
+	if len(f) > n {
+		f = f[:n]
+	}
+	return strings.Join(f, " ")
 }
